@@ -1128,7 +1128,7 @@ def check_schema(kind, value, expect_index=None, ordered=True):
     if kind == 'filter_result':
         want = ['trajectory', 'trajectory_sd', 'gyro', 'gyro_sd', 'accel', 'accel_sd',
                 'innovations']
-        if sorted(value.keys()) != sorted(want):
+        if not set(want) <= set(value.keys()):          # extra fields are not forbidden
             return f"filter result fields {sorted(value.keys())}"
         p = check_schema('trajectory', value['trajectory'], ordered=ordered)
         if p:
